@@ -5,12 +5,13 @@ from fractions import Fraction as Fr
 
 from ..ref import Lib, PREFIX, split_unit
 from .common import mk_container, set_volume
+from .c01 import select
 
 PROPERTY = 'C17'
 BOUNDS = ("remove on an arbitrary valid container of 1-4 components out of {water, DMSO, NaCl, lipase} and on every well "
           "of a 2x2 plate (non-uniform symbolic contents, one well lacking the selected substance), selectors: each "
           "substance, an absent substance, SOLID, LIQUID, ENZYME; targets: container, whole plate, row / column / "
-          "single-well / list slices; directly and as a recipe step followed by get_substance_used (destinations "
+          "single-well / list slices and slices of slices; several recipes removing from one container; directly and as a recipe step followed by get_substance_used (destinations "
           "given and default) and get_container_flows['out'] in mol, g, L and U units. Lite model for the direct "
           "cells, delta model for the single-container cells, output roundings always modelled.")
 OUTSIDE = "IEEE rounding; plates larger than 2x2."
@@ -25,6 +26,8 @@ SLICES = {
     'col': ((slice(None), 2), [(0, 1), (1, 1)]),
     'well': ('B:1', [(1, 0)]),
     'list': (['A:2', 'B:1'], [(0, 1), (1, 0)]),
+    'sub': (('SUB', (slice(None), slice(None)), (slice(0, 1), slice(1, 2))), [(0, 1)]),
+    'sublist': (('SUB', ['A:1', 'B:2', 'B:1'], slice(1, None)), [(1, 1), (1, 0)]),
 }
 
 
@@ -40,7 +43,8 @@ def cells(tier, seed):
         for sel in (SELECTORS if tier == 'thorough' else ['water', 'SOLID', 'ENZYME', 'Na2SO4(absent)']):
             out.append({'id': f"plate/{sl}/{sel}", 'fn': 'h_plate', 'round': 'lite', 'max_paths': 50, 'cost': 2,
                         'params': {'slice': sl, 'sel': sel}})
-    for target in ['container', 'plate', 'row', 'well', 'list']:
+    out.append({'id': "recipe/two-recipes", 'fn': 'h_two_recipes', 'round': 'lite', 'max_paths': 50, 'params': {}})
+    for target in ['container', 'plate', 'row', 'well', 'list', 'sub']:
         for sel in (['water', 'NaCl', 'SOLID', 'LIQUID', 'ENZYME'] if tier == 'thorough' else ['water', 'SOLID']):
             for unit in (['umol', 'mg', 'uL', 'U'] if tier == 'thorough' else ['umol', 'mg']):
                 out.append({'id': f"recipe/{target}/{sel}/{unit}", 'fn': 'h_recipe', 'round': 'lite', 'max_paths': 100,
@@ -109,7 +113,7 @@ def h_plate(h):
     P = _mk_plate(h, lib, 'P')
     what, pred = _selector(h, lib, p['sel'])
     item, addressed = SLICES[p['slice']]
-    target = P if item == 'PLATE' else P[item]
+    target = select(P, item)
     R = target.remove(what)
     h.outcome = 'ok'
     h.require('plate:returns-new-plate', h.true(R is not P and isinstance(R, h.env.Plate)))
@@ -123,6 +127,29 @@ def h_plate(h):
                     and _same(a.volume, b.volume)
                 h.require('plate:other-wells-identical', h.true(same), region=p['slice'],
                           detail=f"well {(r, c)} is outside the slice")
+
+
+def h_two_recipes(h):
+    """two recipes start from the same container and remove different things; then one recipe removes twice from equal
+    states: every remove step must report what it removed (no state may leak from one step or recipe to the next)"""
+    lib = Lib(h, set(MIX4) | {'Na2SO4'})
+    Recipe, S_ = h.env.Recipe, h.env.Substance
+    A = mk_container(h, lib, 'A', ['water', 'NaCl', 'DMSO'])
+    water, salt = lib['water'], lib['NaCl']
+    h.outcome = 'ok'
+    for n, what, removed in ((1, water, [water]), (2, S_.SOLID, [salt]), (3, S_.LIQUID, [water, lib['DMSO']])):
+        rec = Recipe().uses(A)
+        rec.remove(A, what)
+        rec.bake()
+        flows = rec.get_container_flows(A, unit='umol')
+        truth = 0
+        for s in removed:
+            truth = truth + A.contents[s]
+        h.require('recipe:flows-out==discarded', h.eq(flows['out'], truth, Fr(1, 20) + h.rs(h.ulp * 10**4)), region=f"recipe#{n}",
+                  detail=f"recipe #{n} on the same container: outflow reported for its remove step")
+        h.require('recipe:flows-in==0', h.eq(flows['in'], 0, Fr(1, 20)), region=f"recipe#{n}")
+        h.require('container:observer', h.true(A.get_substances() == set(A.contents)), region=f"recipe#{n}",
+                  detail="get_substances() of the declared container after the recipe")
 
 
 def h_recipe(h):
@@ -141,7 +168,7 @@ def h_recipe(h):
     else:
         obj = _mk_plate(h, lib, 'P')
         item, cells_ = SLICES[p['target']]
-        target = obj if item == 'PLATE' else obj[item]
+        target = select(obj, item)
         wells_before = [obj.wells[r, c] for r in range(2) for c in range(2)]
         addressed = [r * 2 + c for (r, c) in cells_]
     rec = Recipe().uses(obj)
